@@ -7,6 +7,7 @@ import (
 	"fmt"
 	"io"
 	"log/slog"
+	"sync"
 	"sync/atomic"
 	"time"
 
@@ -161,8 +162,33 @@ func nonceVal(nonce uint64, payload []byte) []byte {
 }
 
 // BuildCall turns an Op into the hrpc call the real API takes.
+// tableSlices holds one byte slice per table name, shared by all calls of a
+// run and with spare capacity, the way applications keep their table name in
+// a variable: the library must not write through it.
+var (
+	tableSlicesMu sync.Mutex
+	tableSlices   = map[string][]byte{}
+)
+
+func resetTableSlices() {
+	tableSlicesMu.Lock()
+	tableSlices = map[string][]byte{}
+	tableSlicesMu.Unlock()
+}
+
+func tableBytes(name string) []byte {
+	tableSlicesMu.Lock()
+	defer tableSlicesMu.Unlock()
+	b, ok := tableSlices[name]
+	if !ok {
+		b = append(make([]byte, 0, len(name)+64), name...)
+		tableSlices[name] = b
+	}
+	return b
+}
+
 func BuildCall(ctx context.Context, op *Op) (hrpc.Call, error) {
-	table := []byte(op.Table)
+	table := tableBytes(op.Table)
 	switch op.Kind {
 	case "get":
 		opts := []func(hrpc.Call) error{hrpc.TimeRangeUint64(op.Nonce, hrpc.MaxTimestamp)}
@@ -363,7 +389,7 @@ func (w *World) runOp(rec *OpRec) {
 	case "scan":
 		w.runScan(rec)
 	case "cache":
-		err := w.Client.CacheRegions([]byte(op.Table))
+		err := w.Client.CacheRegions(tableBytes(op.Table))
 		fillSlot(&rec.Slot, nil, err)
 	case "close":
 		w.closeClient()
@@ -478,7 +504,7 @@ func (w *World) runScan(rec *OpRec) {
 	if op.Prio > 0 {
 		opts = append(opts, hrpc.Priority(op.Prio))
 	}
-	s, err := hrpc.NewScanRange(rec.ctx, []byte(op.Table), op.Start, op.Stop, opts...)
+	s, err := hrpc.NewScanRange(rec.ctx, tableBytes(op.Table), op.Start, op.Stop, opts...)
 	if err != nil {
 		panic(err)
 	}
